@@ -773,7 +773,7 @@ def build(case, ctx):
 
 # ------------------------------------------------------------------ enumeration of cases
 
-H3_PREFIXES = ["fresh", "ctrl", "ctrl_dyn", "req_done", "req_open", "req_trailers", "req_blocked", "ctrl_stopped"]
+H3_PREFIXES = ["fresh", "ctrl", "ctrl_dyn", "req_done", "req_open", "req_trailers", "req_blocked", "ctrl_stopped", "ctrl_stopped_late"]
 H0_PREFIXES = ["fresh", "req_done", "req_open"]
 
 
